@@ -682,7 +682,7 @@ class Monitors:
                 self._hit(value)
                 return
             ctx.violation('token_raised', f'_format_value raised {type(ev.exc).__name__}: {ev.exc}',
-                          case, mechanism='raised', exception=type(ev.exc).__name__)
+                          case, mechanism='raised')
             self.culprits.append(('raised', {}))
             return
         tok = ev.result
@@ -727,8 +727,8 @@ class Monitors:
             ctx.event('value_su')
         if why:
             mech = 'value_changed_' + EV_NAMES.get(expected[0], 'other')
-            ctx.violation('token_' + mech, f'token {_short(tok)}: {why}', case, mechanism=mech,
-                          form=val.form)
+            ctx.violation('token_' + mech, f'token {_short(tok)}: {why}', dict(case, form=val.form),
+                          mechanism=mech)
             self.culprits.append((mech, {}))
 
     def _hit(self, value):
@@ -814,12 +814,15 @@ class Monitors:
             if culprit_mechs:
                 # the narrow monitors flagged tokens / comments of this document: one report per
                 # mechanism, so that each is classified on its own
+                # (keys hold the mechanism only: the runner keeps representatives per
+                # (kind, keys) group, so everything of high cardinality goes into the case)
                 for m in culprit_mechs:
-                    ctx.violation('doc_from_' + m, f'{where}: {what}', case, mechanism=m,
-                                  together_with=[o for o in culprit_mechs if o != m], category=category,
-                                  **keys)
+                    ctx.violation('doc_from_' + m, f'{where}: {what}',
+                                  dict(case, detail=dict(keys, category=category, flagged=culprit_mechs)),
+                                  mechanism=m)
             else:
-                ctx.violation('doc_' + category, f'{where}: {what}', case, mechanism=category, **keys)
+                ctx.violation('doc_' + category, f'{where}: {what}', dict(case, detail=keys),
+                              mechanism=category)
 
         if exc is not None:
             if exc is self.refusal:
